@@ -160,6 +160,20 @@ pub fn generate<G: Cv>(cx: &mut Cx, rng: &mut ChaCha20Rng, round: u64) {
         for i in 0..n { let s = i % sp; b.extend_from_slice(&base[slots_end + s * ssz..slots_end + (s + 1) * ssz]); }
         if (128..=256).contains(&n) { full_cases.push((format!("reshaped:slots={n}"), b)); } else { parse_cases.push((format!("reshaped:slots={n}"), b)); }
     }
+    // length-consistent re-framings of the header: g_r-size and enc-size changed TOGETHER so that the slot size
+    // (g + 2e) — and with it every length check — is unchanged: only the per-field width checks can object
+    for d in [1isize, -1, 2, 8, -8, 16, -16] {
+        let (g2, e2) = (gsz as isize + 2 * d, esz as isize - d);
+        if g2 < 0 || e2 < 0 { continue; }
+        let mut b = base.clone(); set16(&mut b, 34, g2 as usize); set16(&mut b, 36, e2 as usize);
+        parse_cases.push((format!("reframed:g_r-size={g2},enc-size={e2}"), b));
+    }
+    // and with the body resized to match an arbitrary (g_r-size, enc-size) pair
+    for (g2, e2) in [(0usize, 0usize), (0, esz), (1, 1), (gsz, 1), (gsz + 1, 0), (65535, 0), (gsz - 1, esz), (gsz + 1, esz)] {
+        let mut b = base[..40].to_vec(); set16(&mut b, 34, g2); set16(&mut b, 36, e2);
+        b.resize(40 + sp * (g2 + 2 * e2 + ssz), 0x11);
+        parse_cases.push((format!("resized:g_r-size={g2},enc-size={e2}"), b));
+    }
     // enc size 0: bare points + openings
     { let mut b = base[..40].to_vec(); set16(&mut b, 36, 0);
       for i in 0..sp { b.extend_from_slice(&base[40 + i * slot..40 + i * slot + gsz]); }
